@@ -146,7 +146,12 @@ svx_read_header	(SF_PRIVATE *psf)
 	psf->sf.format = SF_FORMAT_SVX ;
 
 	while (! done)
-	{	psf_binheader_readf (psf, "Em4", &marker, &chunk_size) ;
+	{	marker = chunk_size = 0 ;
+		psf_binheader_readf (psf, "Em4", &marker, &chunk_size) ;
+		if (marker == 0)
+		{	psf_log_printf (psf, "Have 0 marker at position %D (0x%x).\n", psf_ftell (psf), psf_ftell (psf)) ;
+			break ;
+			} ;
 
 		switch (marker)
 		{	case FORM_MARKER :
